@@ -3,7 +3,7 @@
 cd /verif
 tier="${1:-quick}"
 rc_all=0
-for id in C01 C02 C03 C04 C05 C06 C07 C08 C09 C10 C11 C12 C13; do
+for id in C01 C02 C03 C04 C05 C06 C07 C08 C09 C10 C11 C12 C13 C14; do
   t0=$(date +%s)
   ./check $id --tier $tier > work/last_$id.log 2>&1
   rc=$?
